@@ -37,7 +37,7 @@ import (
 	"github.com/dolthub/dolt/go/zzverif/vh"
 )
 
-const c10Rule = "stores: local table-file store with one table file (2..6 (thorough 14) small chunks committed through Put/Commit) plus one archive (2..6 (thorough 10) chunks, snappy and zstd-with-dictionary records, added through WriteTableFile+AddTableFilesToManifest), archive indexes heap or mmap; journal store with 2..4 acknowledged commits. For each target file of {table file, archive, manifest, journal}: every single-byte corruption (each offset x {^0x01, ^0x80, 0x00, 0xff}, skipped when the byte would not change) and, except for the journal (truncation = torn tail, C03/C04), every truncation length (all for files <= 4 KiB, 4000 sampled offsets beyond), then open + Root + Count + Has/Get of every stored address + GetMany + IterateAllChunks under recover(). Violation: a panic, or data under a stored address that differs from what was stored, or (manifest/journal) a silently different root than an acknowledged one the corruption could not have touched. Non-trivial variant: the corrupted byte / cut lies in index, footer, metadata, manifest or journal bytes (not chunk payload) of a file with >= 2 chunks. Distinct by (store content hash, file kind, offset, variant)."
+const c10Rule = "stores: local table-file store with one table file (2..6 (thorough 14) small chunks committed through Put/Commit) plus one archive (2..6 (thorough 10) chunks, snappy and zstd-with-dictionary records, added through WriteTableFile+AddTableFilesToManifest), archive indexes heap or mmap; journal store with 3..5 acknowledged commits (every record's 4 length-prefix bytes additionally get increments +1..+100 / +1..+3 / +1 so that a length grows but stays inside the file). For each target file of {table file, archive, manifest, journal}: every single-byte corruption (each offset x {^0x01, ^0x80, 0x00, 0xff}, skipped when the byte would not change) and, except for the journal (truncation = torn tail, C03/C04), every truncation length (all for files <= 4 KiB, 4000 sampled offsets beyond), then open + Root + Count + Has/Get of every stored address + GetMany + IterateAllChunks under recover(). Violation: a panic, or data under a stored address that differs from what was stored, or (manifest/journal) a silently different root than an acknowledged one the corruption could not have touched. Non-trivial variant: the corrupted byte / cut lies in index, footer, metadata, manifest or journal bytes (not chunk payload) of a file with >= 2 chunks. Distinct by (store content hash, file kind, offset, variant)."
 
 // verifQuota refuses absurd allocation requests the way a memory-limited deployment would; a
 // corrupted 32-bit count otherwise turns into a multi-GiB allocation that the driver's address
@@ -128,6 +128,12 @@ func c10Mutate(orig []byte, off int, variant string) ([]byte, bool) {
 		nb = 0
 	case "ff":
 		nb = 0xff
+	default:
+		var k int
+		if _, err := fmt.Sscanf(variant, "add%d", &k); err != nil {
+			return nil, false
+		}
+		nb = b + byte(k)
 	}
 	if nb == b {
 		return nil, false
@@ -220,27 +226,42 @@ func (e *c10Env) runVariant(off int, variant string, mutated []byte) (outcome, v
 	if err != nil {
 		return "root_error", ""
 	}
-	// which commits the corruption cannot have touched
-	floor := -1
+	// Journal (same-length corruption inside acknowledged records): an open that returns no error
+	// must show the LAST acknowledged root, every acknowledged chunk, and must not have shrunk the
+	// journal below the last acknowledged size. A torn-tail warning does not excuse losing
+	// acknowledged commits; only an error (e.g. ErrJournalDataLoss) or model-equal data is fine.
 	if c.Backend == "journal" && c.Kind == "journal" {
-		for k, cm := range c.Commits {
-			if cm.Size <= int64(off) {
-				floor = k
-			}
-		}
+		n := len(c.Commits)
 		at := -1
 		for k, cm := range c.Commits {
 			if cm.Root == root.String() {
 				at = k
 			}
 		}
-		if at < 0 && !(root.IsEmpty() && floor < 0) {
+		if at < 0 && !root.IsEmpty() {
 			return "wrong_root", fmt.Sprintf("open succeeded and Root() = %s, which was never committed (commits %v)", root, c.Commits)
 		}
-		if at < floor {
-			return "lost_ack", fmt.Sprintf("open succeeded without error and Root() = commit #%d (%s) although commit #%d (journal bytes [0,%d)) lies entirely before the corrupted offset %d: acknowledged data silently lost", at, root, floor, c.Commits[floor].Size, off)
+		if at < n-1 {
+			// dolt's own rule reports data loss only when a parsable root record followed by another
+			// record lies after the damaged record; damage at or behind the second-to-last root
+			// record is indistinguishable from a torn tail for it (zone "tail").
+			tailStart := int64(0)
+			if n >= 2 {
+				tailStart = c.Commits[n-2].Size - int64(rootHashRecordSize())
+			}
+			outcome := "lost_ack"
+			if int64(off) >= tailStart {
+				outcome = "lost_ack_tail"
+			}
+			sz := int64(-1)
+			if fi, err := os.Stat(filepath.Join(e.dir, c.Target)); err == nil {
+				sz = fi.Size()
+			}
+			return outcome, fmt.Sprintf("open succeeded without error (%d bootstrap warning(s)) and Root() = commit #%d of %d (%s), the last acknowledged root is %s; corrupted offset %d, commits end at %v, journal file is now %d bytes (acknowledged: %d)", e.warnings, at, n, root, c.Root, off, c.Commits, sz, c.Commits[n-1].Size)
 		}
-		floor = at
+		if fi, err := os.Stat(filepath.Join(e.dir, c.Target)); err == nil && fi.Size() < c.Commits[n-1].Size {
+			return "truncated", fmt.Sprintf("open succeeded without error and shrank the journal to %d bytes; %d bytes were acknowledged", fi.Size(), c.Commits[n-1].Size)
+		}
 	} else if root != e.root {
 		return "wrong_root", fmt.Sprintf("open succeeded without error and Root() = %s, stored root is %s", root, e.root)
 	}
@@ -251,7 +272,7 @@ func (e *c10Env) runVariant(off int, variant string, mutated []byte) (outcome, v
 	}
 
 	for _, h := range e.addrs {
-		mustHave := !(c.Backend == "journal" && c.Kind == "journal") || e.commit[h] <= floor
+		mustHave := true
 		stage = "Has(" + vc.Short(h) + ")"
 		has, err := st.Has(ctx, h)
 		if err != nil {
@@ -331,11 +352,8 @@ func (e *c10Env) runVariant(off int, variant string, mutated []byte) (outcome, v
 	case silentAbsent > 0:
 		// table files and archives carry no index checksum: a flipped address byte makes a chunk
 		// unreachable without any way for the reader to notice. Not misread data; recorded.
-		if c.Kind == "journal" && e.warnings > 0 {
-			return "absent_after_warning", "" // the bootstrap reported the damage through its warnings callback
-		}
 		if c.Kind == "journal" || c.Kind == "manifest" {
-			return "silent_absent", fmt.Sprintf("open and reads succeeded without any error or warning, Root() = %s (commit #%d of %d), yet %d chunk(s) acknowledged at or before that commit are reported absent", root, floor, len(c.Commits), silentAbsent)
+			return "silent_absent", fmt.Sprintf("open and reads succeeded without any error (%d bootstrap warning(s)), Root() = %s is the last acknowledged root, yet %d acknowledged chunk(s) are reported absent", e.warnings, root, silentAbsent)
 		}
 		return "silent_absent", ""
 	default:
@@ -545,22 +563,59 @@ func (e *c10Env) enumerate(rt *rapid.T, t *testing.T, rec *vh.Recorder, id strin
 		rec.Class("sampled_offsets", 1)
 	}
 	variants := []string{"xor01", "xor80", "zero", "ff", "trunc"}
+	lenByte := map[int]int{} // offset -> index (0..3) within a record's big-endian length prefix
 	if e.c.Kind == "journal" {
 		// journal truncation semantics (torn tails) belong to C03/C04; here only bytes inside
 		// acknowledged records are corrupted and the file keeps its length
 		variants = variants[:4]
-		if n := len(e.c.Commits); n > 0 {
-			var in []int
-			for _, o := range offs {
-				if int64(o) < e.c.Commits[n-1].Size {
-					in = append(in, o)
+		n := len(e.c.Commits)
+		end := int64(len(orig))
+		if n > 0 {
+			end = e.c.Commits[n-1].Size
+		}
+		// every record's length prefix is always enumerated (harness' own walk of the record
+		// framing: 4-byte big-endian total length first), in every tier
+		have := map[int]bool{}
+		for _, o := range offs {
+			have[o] = true
+		}
+		for p := int64(0); p+4 <= end; {
+			l := int64(binary.BigEndian.Uint32(orig[p:]))
+			for i := 0; i < 4; i++ {
+				lenByte[int(p)+i] = i
+				if !have[int(p)+i] {
+					have[int(p)+i] = true
+					offs = append(offs, int(p)+i)
 				}
 			}
-			offs = in
+			if l < 8 || p+l > end {
+				break
+			}
+			p += l
 		}
+		sort.Ints(offs)
+		var in []int
+		for _, o := range offs {
+			if int64(o) < end {
+				in = append(in, o)
+			}
+		}
+		offs = in
 	}
 	for _, off := range offs {
-		for _, v := range variants {
+		vs := variants
+		if i, ok := lenByte[off]; ok {
+			// length prefixes also get increments: a length that grows but stays inside the file
+			switch i {
+			case 3:
+				vs = append(append([]string{}, vs...), "add1", "add2", "add5", "add12", "add20", "add31", "add40", "add64", "add100")
+			case 2:
+				vs = append(append([]string{}, vs...), "add1", "add2", "add3")
+			default:
+				vs = append(append([]string{}, vs...), "add1")
+			}
+		}
+		for _, v := range vs {
 			mut, ok := c10Mutate(orig, off, v)
 			if !ok {
 				continue
@@ -794,7 +849,7 @@ func c10BuildJournal(rt *rapid.T, dir string) (*c10Case, string) {
 	}
 	set := vc.NewSet()
 	set.Prefixes = vc.GenPrefixPool(rt, "jpool")
-	ncommits := rapid.IntRange(2, 4).Draw(rt, "ncommits")
+	ncommits := rapid.IntRange(3, 5).Draw(rt, "ncommits")
 	last := hash.Hash{}
 	jpath := filepath.Join(dir, chunkJournalName)
 	for k := 0; k < ncommits; k++ {
@@ -884,7 +939,7 @@ var c10Assumptions = []string{
 	"allocation requests above 256 MiB are refused by the harness' MemoryQuotaProvider (a corrupted 32-bit count otherwise becomes a multi-GiB allocation that the driver's address-space limit turns into a runtime abort unrelated to the parser)",
 	"table files and archives carry no checksum over their index: a corrupted address byte makes a stored chunk unreachable (reported absent) without any error; this is recorded as class silent_absent and is not a violation for those two file kinds; it is one for manifest and journal corruption, where acknowledged data must not vanish silently",
 	"IterateAllChunks reports (index address, content) pairs for integrity checkers to verify; a pair under a never-stored address is not counted, wrong bytes under a stored address are",
-	"journal: a corruption at offset o may only lose commits whose records end after o (torn-tail semantics, C03); losing an earlier acknowledged commit without an error is a violation",
+	"journal: only same-length corruption inside acknowledged records (truncation = torn tail belongs to C03/C04). An open that returns no error must show the last acknowledged root, every acknowledged chunk and an un-shrunk journal; a bootstrap warning does not excuse lost acknowledged commits. Outcome ids: lost_ack (older root although an intact commit that dolt's own data-loss rule can see follows the damage), lost_ack_tail (damage at or behind the second-to-last root record, which dolt's rule cannot tell from a torn tail), silent_absent (latest root, chunks gone)",
 	"chunk payloads are cut to <= 40 bytes so that exhaustive enumeration is dominated by structure bytes",
 	"variants that put a value >= 64 MiB into a table-index length entry or an archive span-index delta are counted (class skipped_length_field_over_64MiB) but not executed: the readers allocate make([]byte, length) from those unvalidated fields, which costs gigabytes per read or aborts the Go runtime (out of memory) — reported separately as a finding candidate from reading the code",
 }
